@@ -225,5 +225,5 @@ fn generate_completion(completions: &mut String, cmd: &Command, is_subcommand: b
 }
 
 fn single_line_styled_str(text: &StyledStr) -> String {
-    text.to_string().replace('\n', " ")
+    text.to_string().replace(['\n', '\r'], " ")
 }
